@@ -102,11 +102,75 @@ def evaluate(chk, cases, label):
     return stats
 
 
+def gen_batches(rng):
+    """batches of (file, record): several batches name the same files; some records say nothing (empty) or name functions only"""
+    paths = rng.sample(gen.PATHS, rng.randrange(1, 4))
+    batches = []
+    for _ in range(rng.randrange(1, 5)):
+        b = []
+        for p in rng.sample(paths, rng.randrange(1, len(paths) + 1)) + ([rng.choice(paths)] if rng.random() < 0.3 else []):
+            c = gen.cov(rng, 4, [1, 2, 3, 7], ["f", "gé", "2,3#o"])
+            r = rng.random()
+            if r < 0.15:
+                c = {"lines": [], "branches": [], "funcs": c["funcs"]}            # functions only
+            elif r < 0.25:
+                c = {"lines": [], "branches": c["branches"], "funcs": []}          # branches only
+            elif r < 0.3:
+                c = {"lines": [], "branches": [], "funcs": []}                     # says nothing
+            b.append([gen.hexname(p), c])
+        batches.append(b)
+    return batches
+
+
+def evaluate_files(chk, n):
+    """file level (add_results, private): batches go through the real consumer loop as lcov items"""
+    cases = [{"batches": gen_batches(chk.rng), "branch": True} for _ in range(n)]
+    impl = vlib.run_impl("consume", cases, chk.pid, parallel=4)
+    exprs = [vlib.app("run_addres", [[(list(bytes.fromhex(nm)), gen.cov_coq(c)) for nm, c in b] for b in case["batches"]]) for case in cases]
+    model = vlib.run_model(chk.pid, "Run.Show", exprs)
+    dis = []
+    for case, ri, rm in zip(cases, impl, model):
+        chk.count()
+        if "ok" not in ri:
+            chk.violation({"kind": "oracle", "engine": "consume", "case": case, "impl": ri, "clause": "the consumer must aggregate the batches"}, tag="files")
+            continue
+        got = {nm: c for nm, c in ri["ok"]}
+        by = {}
+        for b in case["batches"]:
+            for nm, c in b:
+                by.setdefault(nm, []).append(c)
+        bad = None
+        if set(got) != set(by):
+            bad = "reported files %s, expected %s" % (sorted(got), sorted(by))
+        else:
+            for nm, cs in by.items():
+                why = gen.obs_matches(got[nm], gen.ref_agg(cs))
+                if why:
+                    bad = "file %s: %s" % (bytes.fromhex(nm).decode(), why)
+        if bad:
+            chk.violation({"kind": "oracle", "engine": "consume", "case": case, "impl": ri["ok"],
+                           "clause": "every file's record is the aggregate of all records given for it, a record that says nothing changes nothing: " + bad}, tag="files")
+            continue
+        if isinstance(rm, tuple) and rm and rm[0] == "@@ERROR":
+            dis.append((case, ri["ok"], rm))
+            continue
+        mj = sorted([[bytes(nm).hex(), gen.cov_from_coq(c)] for nm, c in rm])
+        ij = sorted([[nm, gen.cov_canon(c)] for nm, c in ri["ok"]])
+        if vlib.canon(mj) != vlib.canon(ij):
+            dis.append((case, ij, mj))
+        else:
+            chk.nontrivial(case)
+    for case, ri, rm in dis[:3]:
+        chk.violation({"kind": "correspondence", "engine": "consume", "theorems_at_stake": "C01_file_* (add_results of Model/Merge.v no longer describes lib.rs add_results)",
+                       "case": case, "impl": ri, "model": rm}, has_input=False, tag="files-corr")
+
+
 def run(chk):
     chk.proofs()
     n = 600 if chk.tier == "quick" else 12000
     cases = gen_cases(chk, n)
     stats = evaluate(chk, cases, "gen")
+    evaluate_files(chk, 200 if chk.tier == "quick" else 3000)
     if chk.tier == "thorough":
         ex = exhaustive_cases()
         s2 = evaluate(chk, ex, "exh")
